@@ -189,13 +189,19 @@ check_ipbl_file(const size_t iplen, const off_t flen, const unsigned char *buf, 
 
 	if (flen % recordlen)
 		return -1;
+	/* validate all entries first, so a malformed file is always reported,
+	 * even if an entry before the broken one would match */
+	for (i = 0; i < flen; i += recordlen) {
+		const unsigned char netmask = buf[i + iplen];
+
+		if ((netmask < 8) || (netmask > maskmax))
+			return -1;
+	}
 	for (i = 0; i < flen; i += recordlen) {
 		/* cc shut up: we know what we are doing here */
 		const unsigned char netmask = *(buf + iplen);
 		uintptr_t tmp[1 + (recordlen / sizeof(uintptr_t))];
 
-		if ((netmask < 8) || (netmask > maskmax))
-			return -1;
 		/* do a memcpy() here to have the buffer always properly aligned */
 		memcpy(tmp, buf, recordlen);
 		if ((*matchfunc)(&xmitstat.sremoteip, tmp, netmask))
